@@ -8,6 +8,7 @@ package helper
 func First[T any](c <-chan T, count int) <-chan T {
 	result := make(chan T, cap(c))
 
+	VerifStage("First", count, []any{c}, []any{result})
 	go func() {
 		for i := 0; i < count; i++ {
 			n, ok := <-c
